@@ -6,7 +6,7 @@
  * shapes - labelled bounded (small-scope assumption: a violation needs no more than N slots).
  */
 #include "types.h"
-/*@unit {'name':'c03_reverse', 'props':['C03','C19','C06','C02'], 'entry':'h_reverse', 'kind':'bounded', 'defines_quick':['NSLOTS=3'], 'defines_thorough':['NSLOTS=4'],
+/*@unit {'name':'c03_reverse', 'props':['C03','C19','C06','C02','C05'], 'entry':'h_reverse', 'kind':'bounded', 'defines_quick':['NSLOTS=3'], 'defines_thorough':['NSLOTS=4'],
   'unwind_quick':6, 'unwind_thorough':7, 'bound':'pool of 3 (quick) / 4 (thorough) slots, any list shape, any assignment of bidi class 16 (non-spacing mark) to slots',
   'replay':'c03_slots', 'witness_defines':['NSLOTS=4'], 'witness_vars':['w_len','w_cls'],
   'claims':'Segment::reverseSlots maps a well-formed list to a well-formed list with the same slots and flips the reversed flag; without class-16 slots it is the exact reversal; applying it twice restores the original order (relied on by positionSlots and justify)'}@*/
